@@ -1,6 +1,9 @@
 """C04 — rate limiting (fire_count, fire_period, window), sequential histories and 2-thread schedules."""
 import itertools
+import sys
 import threading
+
+INT_DIGIT_LIMIT = sys.get_int_max_str_digits()     # taken BEFORE any agent code is imported (the setting is process-wide)
 
 import core
 from rig import Rig, MockFrame
@@ -15,7 +18,7 @@ TIME = {'quick': 100, 'thorough': 800}
 RULE = ('histories: action kind (snapshot/log/metric/span) x fire_count text x fire_period text x window x up to 40 '
         'hits with scripted clock (boundary spacings: exactly period, +-1 ns, backwards steps) and per-hit condition '
         '(true/false/raising) and, in 30% of the histories, unrelated configuration changes (register/unregister of another tracepoint through the real TracepointConfigService) between hits, driven through the real TriggerHandler.trace_call; a labelled stream in which the service re-sends the tracepoint in a later UPDATE (compared with the per-installation run of the model; the reading of the statement is the known finding C04/update-resets-count); one tracepoint yielding sibling actions (snapshot+metrics+span, metric processor failing part-way: the hit still counts) judged per action; several tracepoints with different limits on one line (merged into one trigger or separate triggers) judged per tracepoint; schedules: all 20 interleavings of '
-        '2 threads x (check, process, record) forced with gates inside the condition and a watch, plus 3-4 thread schedules (mutually exclusive ones that are not plain blocks: unstarted / unfinished threads, extra entries; and random interleavings), every thread with its own clock value (not in arrival order, boundary spacings around the period) and condition outcome, half of them with the clock READ as a gated region of its own; the time stamps of the collections are compared with the timed concurrent model (in order when check…record stay mutually exclusive, as a multiset otherwise) and judged against the sequential reference; lifecycle: one tracepoint from the service or registered in code under operation sequences (UPDATE responses with/without it through the real convert_response on protobuf messages, NO_CHANGE, other registrations, register/unregister) judged per installation by a reference written from the statement (an UPDATE that re-sends an installed service tracepoint is an instance of the known finding C04/update-resets-count only when the reset changes what may be collected; re-deliveries before the first hit are judged fully), 40% of them as ONE tracepoint with several actions (snapshot + two metrics [+ span]) judged and compared with the model per ACTION. A case is '
+        '2 threads x (check, process, record) forced with gates inside the condition and a watch, plus 3-4 thread schedules (mutually exclusive ones that are not plain blocks: unstarted / unfinished threads, extra entries; and random interleavings), every thread with its own clock value (not in arrival order, boundary spacings around the period) and condition outcome, half of them with the clock READ as a gated region of its own; the time stamps of the collections are compared with the timed concurrent model (in order when check…record stay mutually exclusive, as a multiset otherwise) and judged against the sequential reference; lifecycle: one tracepoint from the service or registered in code under operation sequences (UPDATE responses with/without it through the real convert_response on protobuf messages, NO_CHANGE, other registrations, register/unregister) judged per installation by a reference written from the statement (an UPDATE that re-sends an installed service tracepoint is an instance of the known finding C04/update-resets-count only when the reset changes what may be collected; re-deliveries before the first hit are judged fully), 40% of them as ONE tracepoint with several actions (snapshot + two metrics [+ span]) judged and compared with the model per ACTION, 60% of the service ones with DIFFERENT budgets inside one trigger (the metric/span actions belong to a second tracepoint of the same line with its own fire_count/fire_period); the driver also compares, per single-action lifecycle case, the hand-written installation model with the regenerated TRANSLATION of the configuration service (ages_svc vs ages_model: model against model, NOT against /repo — the /repo comparison is `collected`). A case is '
         'non-trivial when at least one hit is rejected by a limit and at least one collects (or, for schedules, when '
         'the threads overlap). Distinct = distinct canonical JSON of the case.')
 TRUSTED = ['threading.Lock/Event, CPython GIL atomicity of one attribute store (regions check/process/record)',
@@ -24,7 +27,8 @@ ASSUMPTIONS = ['time stamps are > 0 (time.time_ns()); the ts = 0 sentinel case i
                'compared with the model but not judged by the oracle',
                'window values are integers in the unit of the trigger time stamp (ns)']
 
-COUNTS = [None, '-1', '0', '1', '2', '3', '5', 'abc', '1.5', ' 3 ', '', '+2', '1_0', '-2']
+COUNTS = [None, '-1', '0', '1', '2', '3', '5', 'abc', '1.5', ' 3 ', '', '+2', '1_0', '-2',
+          '9' * 4301, '0' * 4300 + '2', '0' * 4299 + '2']      # beyond / at CPython's 4300-digit limit on integer text
 PERIODS = [None, '0', '1', '1000', '-5', 'x', '', '2', ' 10 ', '50']
 KINDS = ['snapshot', 'log', 'metric', 'span']
 
@@ -32,6 +36,8 @@ KINDS = ['snapshot', 'log', 'metric', 'span']
 def ref_int(text, default):
     if text is None:
         return default
+    if isinstance(text, str) and INT_DIGIT_LIMIT and sum(c.isdigit() for c in text) > INT_DIGIT_LIMIT:
+        return default          # integer text beyond the interpreter's digit limit is unparsable (ValueError)
     try:
         return int(text)
     except ValueError:
@@ -217,6 +223,16 @@ def gen_lifecycle(rng):
         # ONE tracepoint, several actions (snapshot + two metrics [+ span]): each action has its own budget
         case['action'] = 'snapshot'
         case['multi'] = ['snapshot', 'metric'] + (['span'] if rng.random() < 0.6 else [])
+        if origin == 'service' and rng.random() < 0.6:
+            # DIFFERENT budgets inside one trigger: the metric (+ span) actions belong to a second tracepoint of the same
+            # line with its own fire_count / fire_period; both tracepoints are in (or out of) every UPDATE together
+            cfg2 = {}
+            fc, fp = rng.choice(COUNTS[:14]), rng.choice(PERIODS)
+            if fc is not None:
+                cfg2['fire_count'] = fc
+            if fp is not None:
+                cfg2['fire_period'] = fp
+            case['cfg2'] = cfg2
     return case
 
 
@@ -642,7 +658,19 @@ def run_lifecycle(case):
 
         def response(present, n):
             tps = [TracePointConfig(ID='other%d' % n, path='elsewhere.py', line_number=3, args={})] if n % 2 else []
-            if present and case['origin'] == 'service':
+            if present and case['origin'] == 'service' and 'cfg2' in case:
+                a1 = {k2: v2 for k2, v2 in args.items() if k2 != 'span'}
+                a2 = {'condition': 'cond()', 'snapshot': 'no_collect'}
+                a2.update(case['cfg2'])
+                if 'span' in multi:
+                    a2['span'] = 'line'
+                both = [TracePointConfig(ID='tp1', path='host.py', line_number=7, args=a1),
+                        TracePointConfig(ID='tp2', path='host.py', line_number=7, args=a2,
+                                         metrics=[Metric(name='m', type=0), Metric(name='m2', type=1)])]
+                if n % 2:
+                    both.reverse()
+                tps[n % (len(tps) + 1):n % (len(tps) + 1)] = both
+            elif present and case['origin'] == 'service':
                 tps.insert(n % (len(tps) + 1), TracePointConfig(
                     ID='tp1', path='host.py', line_number=7, args=args,
                     metrics=([Metric(name='m', type=0)] + ([Metric(name='m2', type=1)] if multi else [])) if is_metric else []))
@@ -815,9 +843,15 @@ def oracle(case, obs):
         exp = lifecycle_reference(case)
         if case.get('multi'):
             what = 'registered in code' if case['origin'] == 'code' else 'from the service'
-            return [f'{k} action of the tracepoint {what} ({case["cfg"]}, actions {case["multi"]}) over '
-                    f'{[o["op"] for o in case["ops"] if o["op"] != "hit"]}: collected {got[:8]}.., while installed ITS OWN '
-                    f'limits and the conditions permit exactly {exp[:8]}..' for k, got in obs['collected'].items() if got != exp]
+            out = []
+            for k, got in obs['collected'].items():
+                cfg_k = case['cfg2'] if ('cfg2' in case and k != 'snapshot') else case['cfg']
+                exp_k = lifecycle_reference(dict(case, cfg=cfg_k))
+                if got != exp_k:
+                    out.append(f'{k} action ({cfg_k}) in the trigger of the tracepoint(s) {what} (actions {case["multi"]}, '
+                               f'snapshot budget {case["cfg"]}) over {[o["op"] for o in case["ops"] if o["op"] != "hit"]}: '
+                               f'collected {got[:8]}.., while installed ITS OWN limits and the conditions permit exactly {exp_k[:8]}..')
+            return out
         if obs['collected'] != exp:
             what = 'registered in code' if case['origin'] == 'code' else 'from the service'
             return [f'tracepoint {what} ({case["cfg"]}) over {[o["op"] for o in case["ops"] if o["op"] != "hit"]}: '
@@ -897,8 +931,10 @@ def known_finding(case, obs):
         return None
     if case['kind'] == 'lifecycle':
         # an instance of the finding = a re-delivery whose reset of the limits changes what may be collected
-        return 'C04/update-resets-count' if (resent_while_installed(case) and
-                                             lifecycle_reference(case, True) != lifecycle_reference(case, False)) else None
+        cfgs = [case['cfg']] + ([case['cfg2']] if 'cfg2' in case else [])
+        return 'C04/update-resets-count' if (resent_while_installed(case) and any(
+            lifecycle_reference(dict(case, cfg=cf), True) != lifecycle_reference(dict(case, cfg=cf), False)
+            for cf in cfgs)) else None
     if case['kind'] == 'schedule' and overlapping(case):
         return 'C04/2-threads-check-check-record-record'
     if case['kind'] == 'history' and case['cfg'].get('window_in_args'):
@@ -913,7 +949,8 @@ def model_request(case, obs):
         return {'op': 'opsD', 'origin': case['origin'], 'cfg': case['cfg'],
                 'ops': [dict(o, cond=o['cond'] == 'true') if o['op'] == 'hit' else o for o in case['ops']]}
     if case['kind'] == 'lifecycle' and case.get('multi'):
-        return {'op': 'opsN', 'origin': case['origin'], 'cfgs': [case['cfg']] * len(case['multi']),
+        return {'op': 'opsN', 'origin': case['origin'],
+                'cfgs': [case['cfg2'] if ('cfg2' in case and k != 'snapshot') else case['cfg'] for k in case['multi']],
                 'ops': [dict(o, cond=o['cond'] == 'true') if o['op'] == 'hit' else o for o in case['ops']]}
     if case['kind'] == 'lifecycle':
         return {'op': 'ops', 'origin': case['origin'], 'cfg': case['cfg'],
@@ -1000,7 +1037,8 @@ def label(case, obs):
         kinds.discard('hit')
         if case.get('delayed'):
             return 'lifecycle/%s/handover-%s' % (case['origin'], 'at-once' if handed_over_at_once(case) else 'late')
-        return 'lifecycle/%s/%s/%s' % (case['origin'], '+'.join(case['multi']) if case.get('multi') else case['action'],
+        return 'lifecycle/%s/%s/%s' % (case['origin'], ('+'.join(case['multi']) + ('/own-budgets' if 'cfg2' in case else ''))
+                                       if case.get('multi') else case['action'],
                                        'resent' if resent_while_installed(case) else
                                        'reinstalled' if len([o for o in case['ops'] if o['op'] in ('register',) or
                                                              (o['op'] == 'update' and o['present'] and case['origin'] == 'service')]) > 1
